@@ -14,6 +14,8 @@ import os, random, re, subprocess, sys, json, time
 
 wt, fname, func, n, seed, checks = sys.argv[1], sys.argv[2], sys.argv[3], int(sys.argv[4]), int(sys.argv[5]), sys.argv[6].split(',')
 run_suite = '--suite' in sys.argv
+GENERAL = '--general' in sys.argv   # also boolean-operator swaps, constant shifts, dropped assignments / calls (hand-written code)
+CHECK = os.environ.get('VERIF_CHECK', '/verif/check')
 env = dict(os.environ, GOFLAGS='-mod=mod', GOPROXY='off', GOSUMDB='off', GOTOOLCHAIN='local')
 path = os.path.join(wt, fname)
 subprocess.run(['git', 'checkout', '-q', '--', '.'], cwd=wt, check=True)
@@ -71,6 +73,17 @@ for i in range(start, end):
         continue
     if re.match(r'^\s*(p|top|cs|segStart|currentFieldStart|currentFieldEnd)\s*(=|\+=|-=|\+\+|--)', l) or re.match(r'^\s*stack\[top\] = \d+', l):
         cands.append(('stmt', i))
+        continue
+    if GENERAL:
+        # hand-written code: more kinds of single-site slips
+        if ' && ' in l or ' || ' in l:
+            cands.append(('andor', i))
+        if re.search(r'[^\w.]\d+\b', l) and not l.strip().startswith('//') and not l.strip().startswith('case'):
+            cands.append(('num', i))
+        if re.match(r'^\s*[\w.\[\]*]+(, [\w.\[\]*]+)* = [^=]', l):
+            cands.append(('dropassign', i))
+        elif re.match(r'^\s*[\w.]+\(.*\)\s*$', l):
+            cands.append(('dropcall', i))
 
 rng = random.Random(seed)
 rng.shuffle(cands)
@@ -110,6 +123,20 @@ def mutate(kind, i):
                 x = rng.choice(nums)
                 return re.sub(r'\b%s\b' % x, str(int(x) + rng.choice([-1, 1])), l, count=1)
         return l.replace(op + ' ', swap[op] + ' ', 1)
+    if kind == 'andor':
+        return l.replace(' && ', ' || ', 1) if ' && ' in l else l.replace(' || ', ' && ', 1)
+    if kind == 'num':
+        nums = [m for m in re.finditer(r'(?<![\w.])(\d+)\b', l)]
+        if not nums:
+            return None
+        m = rng.choice(nums)
+        v = int(m.group(1))
+        nv = v + rng.choice([-1, 1])
+        if nv < 0:
+            nv = v + 1
+        return l[:m.start(1)] + str(nv) + l[m.end(1):]
+    if kind in ('dropassign', 'dropcall'):
+        return re.sub(r'^(\s*)', r'\1// dropped: ', l)
     if kind == 'stmt':
         m = re.match(r'^(\s*)stack\[top\] = (\d+)', l)
         if m:
@@ -145,7 +172,7 @@ for kind, i in cands:
     for cid in checks:
         t0 = time.time()
         e = dict(env, VERIF_REPO=wt, VERIF_OUT=outdir, VERIF_COVER='0')
-        r = subprocess.run(['/verif/check', cid, 'quick'], env=e, capture_output=True, text=True)
+        r = subprocess.run([CHECK, cid, 'quick'], env=e, capture_output=True, text=True)
         if r.returncode != 0:
             first = ''
             for ln in r.stdout.split('\n'):
